@@ -175,6 +175,10 @@ func (o RenderOpts) sp() string {
 		return "\t"
 	case 2:
 		return " \n"
+	case 3:
+		return "\r\n" // expression text written over several lines with CR LF line ends
+	case 4:
+		return "\n"
 	}
 	return " "
 }
